@@ -55,14 +55,17 @@ example : ∃ s s', Reachable s ∧ s.m = [.casQ .reload] ∧ step s .stepM = so
   ⟨_, _, reachable_of_run (acts := [.sig .reload]) rfl, rfl, rfl, rfl, rfl⟩
 
 /-- **A refused request changes nothing except the busy report.**  While a request is in progress
-(`pending`), every section the main loop runs for a second signal — the failed CAS, the busy
-report, and (fixed code, 4876faa) the re-check with its possible clean-up — leaves every component
-of the state except the progress file (and the main loop's own program counter) untouched; this
-holds section by section, so also under any interleaving with the request in progress. -/
+(`pending`), every section the main loop runs for a second signal — the failed CAS (which also takes
+the refused request's own abort marker, 612b092), the busy report, and (4876faa) the re-check with
+its possible clean-up — leaves every component of the state untouched except the progress file, the
+marker the refused request brought with it (removed, never created) and the main loop's own program
+counter; in particular the abort decision of the request in progress (`wAbort`, `qAbort`) stays.
+Section by section, hence under any interleaving with the request in progress. -/
 theorem refusal_is_pure {s s' : St} {x : Micro} {rest : List Micro} (hm : s.m = x :: rest)
     (hx : (∃ k, x = .casQ k ∧ s.pending = true) ∨ (∃ b, x = .writeBusy b) ∨ x = .readProg ∨ x = .writeClr)
     (hs : step s .stepM = some s') :
-    s' = { s with progress := s'.progress, m := s'.m } := by
+    s' = { s with progress := s'.progress, m := s'.m, marker := s'.marker } ∧
+    (s'.marker = true → s.marker = true) := by
   unfold step at hs
   cases hex : s.exited
   case true => simp [hex] at hs
@@ -80,7 +83,7 @@ example : ∃ s : St, s.m = [.casQ .suspend] ∧ s.pending = true ∧ (step s .s
 loop's two sections for a further signal end with a busy progress report, and nothing else changed. -/
 theorem refusal_reports_busy {s : St} {k : Kind} (hm : s.m = []) (hp : s.pending = true)
     (hx : s.exited = false) :
-    runActs s [.sig k, .stepM, .stepM] = some { s with progress := busyOf s.active } ∧
+    runActs s [.sig k, .stepM, .stepM] = some { s with progress := busyOf s.active, marker := false } ∧
     (busyOf s.active).isBusy = true := by
   constructor
   · simp [runActs, step, hx, hm, exec, hp]
@@ -111,7 +114,7 @@ example : ∃ s rest, Reachable s ∧ s.exited = false ∧ s.m = .waitReady :: r
 926f7bd), and changes nothing else: not the flags, not the queue, not the suppression counter, not
 the main loop's position in the hand-off. -/
 theorem signal_in_ready_wait_reports_busy {s s' : St} {k : Kind} (hs : step s (.swallow k) = some s') :
-    s' = { s with progress := .busyActive } ∧ s'.progress.isBusy = true ∧
+    s' = { s with progress := .busyActive, marker := false } ∧ s'.progress.isBusy = true ∧
     ∃ rest, s.m = .waitReady :: rest := by
   unfold step at hs
   cases hex : s.exited
@@ -132,8 +135,8 @@ with a busy report and changes nothing else** — whether it is taken by the mai
 arrives while the main loop is busy elsewhere stays in the OS signal channel and is taken later.) -/
 theorem signal_while_in_progress_is_refused_busy {s : St} {k : Kind} (hr : Reachable s)
     (hx : s.exited = false) (hp : s.pending = true) :
-    (s.m = [] → runActs s [.sig k, .stepM, .stepM] = some { s with progress := busyOf s.active }) ∧
-    (∀ rest, s.m = .waitReady :: rest → step s (.swallow k) = some { s with progress := .busyActive }) ∧
+    (s.m = [] → runActs s [.sig k, .stepM, .stepM] = some { s with progress := busyOf s.active, marker := false }) ∧
+    (∀ rest, s.m = .waitReady :: rest → step s (.swallow k) = some { s with progress := .busyActive, marker := false }) ∧
     ((step s (.sig k)).isSome = true ∨ (step s (.swallow k)).isSome = true →
       s.m = [] ∨ ∃ rest, s.m = .waitReady :: rest) := by
   have _ := hr
@@ -273,7 +276,8 @@ theorem eventually_accepts_again {s : St} (hr : Reachable s) :
     have hc := settled_is_clean hr' hx h3
     have hi := idle_of_quiescent h3 hx
     refine ⟨hc.1, hc.2.1, hc.2.2.1, fun k => ?_⟩
-    refine ⟨{ s' with pending := true, suppress := s'.suppress + 1, queue := s'.queue ++ [k], m := [] }, ?_, rfl, ?_, ?_⟩
+    refine ⟨{ s' with pending := true, suppress := s'.suppress + 1, queue := s'.queue ++ [k], m := [], marker := false,
+                      qAbort := s'.marker }, ?_, rfl, ?_, ?_⟩
     · simp [runActs, step, hx, hi.m, exec, hc.1, hi.queue]
     · simp [hi.queue]
     · simp [hc.2.1]
@@ -282,6 +286,120 @@ theorem eventually_accepts_again {s : St} (hr : Reachable s) :
 example : ∃ s, Reachable s ∧ s.pending = true ∧ s.gBlocked = 1 :=
   ⟨_, reachable_of_run (acts := exAccepted ++ [.wStart 4] ++ List.replicate 12 .stepW ++ [.wake 5] ++
       List.replicate 5 .stepM) rfl, rfl, rfl⟩
+
+/-! ### ordering of release and retirement; the worker's tail; the abort marker; the mute window -/
+
+/-- **The request is released only after the old generation's retirement has been published**
+(dd3bc5b): whenever the hand-off is with the main loop (the `reloading` flag is up or the handler is
+running, in particular when `finishReloadSuccess` is about to run) the worker has no
+`startControlPlaneRetirement` ahead any more. -/
+theorem release_after_retirement {s : St} (hr : Reachable s) (hx : s.exited = false)
+    (hm : s.reloading = true ∨ anyRelM s.m = true) : Micro.startRet ∉ s.w := by
+  have hI := reachable_inv hr hx
+  have hp : s.pending.toNat ≤ 1 := toNat_le_one _
+  have ht := hI.tok
+  have t0 : wsum Micro.tokW s.w = 0 := by
+    simp only [tokens] at ht
+    rcases hm with h | h <;> simp only [h, Bool.true_or, Bool.or_true, Bool.toNat_true] at ht <;> omega
+  have hin := hI.tail t0
+  intro hmem
+  have : Micro.inert .startRet = true := by
+    simp only [allInert, List.all_eq_true] at hin
+    exact hin _ hmem
+  simp [Micro.inert] at this
+
+example : ∃ s rest, Reachable s ∧ s.exited = false ∧ s.m = .finishSucc :: rest ∧ s.w = [.nop, .notifyM] :=
+  ⟨_, _, reachable_of_run (acts := exAccepted ++ [.wStart 4] ++ List.replicate 10 .stepW ++ [.wake 5] ++
+      List.replicate 4 .stepM) rfl, rfl, rfl, rfl⟩
+
+/-- **"In progress" covers everything the worker does to the reload state**: once the worker has
+given the request away (released it, handed it to the main loop) what it still runs of that
+iteration is inert — `refreshPprofServer`, the extra notification, the end of the suppression scope
+and the busy-report clean-up; no flag, no queue, no retirement.  So a new request accepted while the
+worker is in that tail cannot be disturbed by it. -/
+theorem worker_tail_is_inert {s : St} (hr : Reachable s) (hx : s.exited = false)
+    (h0 : wsum Micro.tokW s.w = 0) : allInert s.w = true :=
+  (reachable_inv hr hx).tail h0
+
+/-- **The abort marker goes with the request that created it** (612b092): taking a signal consumes the
+marker, whether the request is accepted (then it becomes that request's abort decision) or refused
+(then it is gone and nobody else's decision changes); the worker uses the decision of the request it
+dequeued. -/
+theorem abort_marker_goes_with_its_request (s : St) (k : Kind) :
+    (exec s (.casQ k)).1.marker = false ∧
+    (s.pending = false → (exec s (.casQ k)).1.qAbort = s.marker) ∧
+    (s.pending = true → (exec s (.casQ k)).1.qAbort = s.qAbort ∧ (exec s (.casQ k)).1.wAbort = s.wAbort) ∧
+    (∀ s', step s (.swallow k) = some s' → s'.marker = false ∧ s'.qAbort = s.qAbort ∧ s'.wAbort = s.wAbort) ∧
+    (∀ i s', step s (.wStart i) = some s' → s'.wAbort = s.qAbort) := by
+  refine ⟨?_, ?_, ?_, ?_, ?_⟩
+  · simp only [exec]; split <;> rfl
+  · intro h; simp [exec, h]
+  · intro h; simp [exec, h]
+  · intro s' hs
+    simp only [step] at hs
+    split at hs
+    · cases hs
+    · split at hs
+      · simp only [Option.some.injEq] at hs; subst hs; exact ⟨rfl, rfl, rfl⟩
+      · cases hs
+  · intro i s' hs
+    simp only [step] at hs
+    split at hs
+    · cases hs
+    · split at hs
+      · split at hs
+        · simp only [Option.some.injEq] at hs; subst hs; rfl
+        · cases hs
+      · cases hs
+
+example : ∃ s : St, s.marker = true ∧ s.pending = true ∧ (exec s (.casQ .reload)).1.marker = false :=
+  ⟨{ marker := true, pending := true }, rfl, rfl, rfl⟩
+
+/-- node-failure reports are muted: the counter is up, or the post-reload window is still running
+(`proxyFailureSuppressedForReload`). -/
+def muted (s : St) : Bool := decide (0 < s.suppress) || decide (0 < s.muteLeft)
+
+/-- **The muting is always lifted again**: the window opened when the counter returns to 0 is
+`reloadFailureQuiesce` long and never longer; in a settled state the counter is 0 and after that much
+time nothing is muted any more (and time can pass: no retirement is open). -/
+theorem muting_always_lifted {s : St} (hr : Reachable s) (hx : s.exited = false) (hq : quiescent s = true) :
+    s.muteLeft ≤ quiesceNs ∧
+    ∃ s', step s (.tick quiesceNs) = some s' ∧ muted s' = false := by
+  have hi := idle_of_quiescent hq hx
+  have hc := settled_is_clean hr hx hq
+  have hm := (reachable_clock hr).mute
+  refine ⟨hm, { s with mgrLeft := s.mgrLeft - quiesceNs, gLeft := s.gLeft - quiesceNs, muteLeft := s.muteLeft - quiesceNs }, ?_, ?_⟩
+  · have hret : (s.retDone != some false) = true := by
+      cases h : s.retDone with
+      | none => rfl
+      | some b => cases b
+                  · exact absurd h hi.ret
+                  · rfl
+    simp [step, hx, hret, hi.gBlocked]
+  · simp only [muted, hc.2.1, Bool.or_eq_false_iff, decide_eq_false_iff_not]
+    omega
+
+/-- the window starts exactly when the last suppression scope ends. -/
+theorem mute_window_starts_at_last_end (s : St) (h : s.suppress = 1) :
+    (exec s .endSupp).1.muteLeft = quiesceNs ∧ (exec s .endSupp).1.suppress = 0 := by
+  simp [exec, h]
+
+example : ∃ s, Reachable s ∧ s.exited = false ∧ quiescent s = true ∧ s.muteLeft = quiesceNs ∧ muted s = true :=
+  ⟨_, reachable_of_run (acts := exFailedSettled) rfl, rfl, by decide, rfl, rfl⟩
+
+/-- **While a request is in progress the progress file never shows an answer that is not its own**:
+from the worker's `Processing` write until the request's own Done "OK" / Error is written (by the
+worker, or by the main loop after the hand-off), the file holds neither Done "OK" nor Error — only
+Processing, a busy report, a cleared busy report (Done ""), or a client's ReloadSend.  (It does *not*
+say that the own answer, once written, survives until the release: a refusal's busy report may
+overwrite it and then be cleared to Done "" — one progress slot shared by all requesters; see the
+design note, observations B–D.) -/
+theorem no_foreign_answer_in_progress {s : St} (hr : Reachable s) (hx : s.exited = false)
+    (h : answerPending s = true) : s.progress.isAnswer = false :=
+  (reachable_inv hr hx).own h
+
+example : ∃ s, Reachable s ∧ s.exited = false ∧ answerPending s = true ∧ s.progress = .processing :=
+  ⟨_, reachable_of_run (acts := exAccepted ++ [.wStart 4, .stepW, .stepW, .stepW]) rfl, rfl, rfl, rfl⟩
 
 /-! ### the old generation's retirement has a clock -/
 
@@ -341,10 +459,12 @@ theorem retirement_clock_bounded {s : St} (hr : Reachable s) :
     s.mgrLeft ≤ totalSwitchBudget ∧ s.gLeft ≤ totalSwitchBudget :=
   ⟨(reachable_clock hr).mgr, (reachable_clock hr).g⟩
 
-/-- **Time cannot pass an open retirement's completion time** (and completing it is always enabled):
-a `tick d` is possible only within the remaining time of the retirement published in the manager and
-of the one a release goroutine is blocked on, and consumes it. -/
-theorem time_stops_at_retirement_deadline {s s' : St} {d : Nat} (hs : step s (.tick d) = some s') :
+/-- *True by construction of the model* (the urgency rule built into `step … (.tick d)`), stated so
+that the rule is visible: time passes only within the remaining time of the retirement published in
+the manager and of the one a release goroutine is blocked on, and completing a retirement is always
+enabled.  The substance — that the REAL drain returns by `retireDoneAt` — is
+`retirement_done_within_budget` plus the synctest tie (`c20ret` stream). -/
+theorem clock_urgency_by_construction {s s' : St} {d : Nat} (hs : step s (.tick d) = some s') :
     (s.retDone = some false → d ≤ s.mgrLeft ∧ s'.mgrLeft + d = s.mgrLeft ∧ (step s .closeMgr).isSome = true) ∧
     (0 < s.gBlocked → d ≤ s.gLeft ∧ s'.gLeft + d = s.gLeft ∧ (step s .closeG).isSome = true) := by
   unfold step at hs
@@ -370,12 +490,12 @@ theorem time_stops_at_retirement_deadline {s s' : St} {d : Nat} (hs : step s (.t
 example : ∃ s s' : St, step s (.tick 5) = some s' ∧ s.retDone = some false ∧ s.mgrLeft = 7 :=
   ⟨{ retDone := some false, mgrLeft := 7 }, _, rfl, rfl, rfl⟩
 
-/-- **A blocked release waits at most the retirement's remaining time, which is at most
-`reloadTotalSwitchBudget`**: on every schedule from a reachable state in which a release goroutine
-is blocked, as long as its retirement has not completed the model time that has passed is bounded.
-This replaces the assumption "a retirement eventually completes" behind `eventually_accepts_again`:
-once time passes, the completion is the only way forward. -/
-theorem blocked_release_waits_at_most_budget {s s' : St} {acts : List Act} (hr : Reachable s)
+/-- *Consequence of the urgency rule* (not an independent fact about the code): on every schedule from
+a reachable state in which a release goroutine is blocked, as long as its retirement has not completed
+the model time that has passed is at most `gLeft ≤ reloadTotalSwitchBudget`.  Together with the tie
+this replaces "a retirement eventually completes" by "the real drain returns by `retireDoneAt`,
+sampled by the `c20ret` stream". -/
+theorem blocked_release_bounded_by_construction {s s' : St} {acts : List Act} (hr : Reachable s)
     (hx : s.exited = false) (hg : 0 < s.gBlocked) (hno : Act.closeG ∉ acts)
     (h : runActs s acts = some s') : elapsed acts ≤ s.gLeft ∧ s.gLeft ≤ totalSwitchBudget :=
   ⟨blocked_release_bounded hr hx hg hno h, (reachable_clock hr).g⟩
